@@ -33,7 +33,9 @@ MANIFEST = {
                   "PARTIAL: proved over a complete small scope of 271 histories (C19_roundtrip_partial: one or two tracks, seven media "
                   "types, three kinds of language tag, every descriptor kind); for arbitrary op sequences the equality of "
                   "the decoded tree and fragment decoding are explored (model: roundtrip_ok on every case; real code: search), not "
-                  "proved (needs a print-then-parse lemma per box kind of the C01 decoder). Refutations: mp4a sample rate for "
+                  "proved: the argument-carrying boxes mvhd, trex, tkhd, mdhd, stsd and the Visual/AudioSampleEntry prefixes do have "
+                  "print-then-parse theorems for ALL in-range values (C19_box_roundtrip_*), what is missing is their composition "
+                  "through C01's generic decode_box (header, dispatch tables, child loops). Refutations: mp4a sample rate for "
                   "96000 Hz (known finding), one-byte elng tag, AddEmptyTrack on decoded inits (outside the quantifier).",
     "level_note": "Trusted: Coq kernel, extraction (ExtrOcamlBasic), OCaml/Go glue; the SPS parsers are arguments of the model "
                   "(their answers are taken from the real parsers in the correspondence; their correctness is C15's property); "
